@@ -72,6 +72,10 @@ pub use remove_continue::*;
 pub use remove_debug_profiling::*;
 pub use remove_floor_division::*;
 pub use remove_if_expression::*;
+#[cfg(feature = "verif")]
+pub(crate) use remove_if_expression::verif_convert_if_branch;
+#[cfg(feature = "verif")]
+pub(crate) use remove_if_expression::verif_process_expression as verif_remove_if_expression_process;
 pub use remove_interpolated_string::*;
 pub use remove_method_call::*;
 pub use remove_nil_declarations::*;
